@@ -6,7 +6,8 @@
                                         one line per world:  "<rule int>*<count> ..." sorted by rule int (ints from the
                                         regenerated ReferenceRule enum; a pseudo rule prints as its name), "-" when empty
    driver rules                         "<int> <name>" for every rule the model can cite
-   driver xmlname <hexfile>             one line per hex string: is_xml_name is_ident *)
+   driver xmlname <hexfile>             one line per hex string: is_xml_name is_ident
+   driver numdfa <hexfile>              one line per hex string: real_dfa int_dfa (NumDefs, proved equal to the C16 grammar) *)
 open Valid_model
 
 let explode s = List.init (String.length s) (String.get s)
@@ -138,6 +139,15 @@ let () =
        while true do
          let s = explode (hexdecode (input_line ic)) in
          Printf.printf "%s %s\n" (if is_xml_name s then "1" else "0") (if valid_is_ident s then "1" else "0")
+       done
+     with End_of_file -> ());
+    close_in ic
+  | "numdfa" ->
+    let ic = open_in Sys.argv.(2) in
+    (try
+       while true do
+         let s = explode (hexdecode (input_line ic)) in
+         Printf.printf "%s %s\n" (if real_dfa s then "1" else "0") (if int_dfa s then "1" else "0")
        done
      with End_of_file -> ());
     close_in ic
